@@ -1,4 +1,4 @@
 ---------------------------- MODULE MC_Client ----------------------------
 EXTENDS Client
-MCKinds == {"ConnectionRefused", "WouldBlock"}
+MCKinds == {"ConnectionRefused", "WouldBlock", "Interrupted"}
 =============================================================================
